@@ -284,12 +284,14 @@ Lemma cells_max_shift cells : cells <> [] ->
   cells_max (map (shift_cc kz nz) cells) = shift_cell kz nz (cells_max cells).
 Proof.
   destruct cells as [|[c z] t]; [congruence|]. intros _. cbn [map cells_max shift_cc fst snd].
-  assert (Mx : forall l : list (cell * Z), map (fun e => cx (fst e)) (map (shift_cc kz nz) l) = map (fun x => x + kz) (map (fun e => cx (fst e)) l))
-    by (intros l; rewrite !map_map; reflexivity).
+  assert (Mx : forall l : list (cell * Z), map (fun e => cx (fst e) + char_cols (snd e) - 1) (map (shift_cc kz nz) l)
+                 = map (fun x => x + kz) (map (fun e => cx (fst e) + char_cols (snd e) - 1) l)).
+  { intros l. rewrite !map_map. apply map_ext. intros [c' z']. unfold shift_cc, shift_cell; cbn [fst snd cx]. lia. }
   assert (My : forall l : list (cell * Z), map (fun e => cy (fst e)) (map (shift_cc kz nz) l) = map (fun x => x + nz) (map (fun e => cy (fst e)) l))
     by (intros l; rewrite !map_map; reflexivity).
   change ((shift_cell kz nz c, z) :: map (shift_cc kz nz) t) with (map (shift_cc kz nz) ((c, z) :: t)).
   rewrite Mx, My. change (cx (shift_cell kz nz c)) with (cx c + kz). change (cy (shift_cell kz nz c)) with (cy c + nz).
+  replace (cx c + kz + char_cols z - 1) with (cx c + char_cols z - 1 + kz) by lia.
   cbn [zmax_list map]. rewrite !zmax_list_shift, !Z.add_max_distr_r. reflexivity.
 Qed.
 
